@@ -84,6 +84,50 @@ def is_fatal(ret):
     return ret[0] == 'agg' and ret[1].endswith('result::Result') and ret[2] == 'Err'
 
 
+def check_revert_flag(fx, rep):
+    """R6: journal_revert undoes a touch of the precompile 0x03 differently from SPURIOUS_DRAGON on;
+    the flag it is given must be `journal's spec >= SPURIOUS_DRAGON` at every call."""
+    from cfg import Origins
+    JR = 'revm::journaled_state::JournaledState::journal_revert'
+    n = 0
+    for g in fx.callers_of(JR):
+        if '::test' in g.nq:
+            continue
+        og = Origins(g, fx)
+        for bi, t in g.calls():
+            if (t.target_fn or '') != JR:
+                continue
+            n += 1
+            key = g.nq.replace('::{closure#0}', '').split('::')[-1]
+            ok = False
+            why = 'not the result of a fork gate'
+            cands = [(g, og, o) for o in og.of_operand(t.args[-1])]
+            if g.kind == 'Closure':
+                # a captured flag: the enclosing function's local of that name
+                parent = fx.fns.get(g.parent)
+                for (_g, _og, o) in list(cands):
+                    if o.root == ('param', 1) and len(o.path) == 1 and parent is not None:
+                        pog = Origins(parent, fx)
+                        for i in parent.local_by_name(o.path[0][1:]):
+                            cands.extend((parent, pog, x) for x in pog.of_local(i, 12))
+            for (h, hog, o) in cands:
+                if o.root[0] == 'call' and o.root[1].endswith(('SpecId::enabled', 'SpecId::is_enabled_in')) and not o.path:
+                    gt = h.blocks[o.root[2]].term
+                    a = hog.of_operand(gt.args[0])
+                    b = hog.of_operand(gt.args[1])
+                    cur = all(x.root == ('param', 1) and x.path[-1:] == ('.spec',) for x in a) and bool(a)
+                    fork = [x.root[2] for x in b if x.root[0] == 'agg' and str(x.root[1]).endswith('SpecId')]
+                    if cur and fork == ['SPURIOUS_DRAGON']:
+                        ok = True
+                    else:
+                        why = 'gate(%s, %s)' % ([x.render() for x in a], fork or [x.render() for x in b])
+            if ok:
+                rep.ok('R6-revert-flag', key, 'self.spec >= SPURIOUS_DRAGON')
+            else:
+                rep.violation('R6-revert-flag', key, '%s passes journal_revert a spurious-dragon flag that is %s; it must be `self.spec` enabled in SPURIOUS_DRAGON' % (key, why), g.where(bi))
+    rep.floor('R6-journal_revert-callers', n, 1)
+
+
 def run(ctx, rep):
     fx = ctx.facts('default')
     undo = extract_undo(fx, rep)
@@ -95,6 +139,11 @@ def run(ctx, rep):
     check_order_extent(fx, rep)
     check_writers(ctx, rep)
     check_recorded_values(fx, rep)
+    check_revert_flag(fx, rep)
+    # the fork flags handed to journal_revert / touch handling are gates the right way round (C05)
+    import engine
+    import c05
+    c05.check_gate_orientation(fx, engine.SubReport(rep, 'C05'))
     rep.assume('`info.code` alone is a cache of `code_hash` (load_code fills it): it counts as journaled only together with code_hash')
     rep.assume('fatal Err exits (database errors) abort the transaction; Evm::clear resets the journal (C02/C31)')
     rep.assume('warm/cold status is decided under C34; logs are undone by truncation (R3), not by entries')
